@@ -331,6 +331,28 @@ KIDLE_SRC = ("@tweezer\ndef kidle(a: float, b: float):\n    g = grid.from_positi
                "    action.move(grid.shift(g, 0.0, 1.0))\n    action.turn_off(sel, [0])\n    action.turn_off(action.ALL, sel)\n")
 
 SHAPE_PROGS = {
+    # a device function SELECTED BY A RUN-TIME BRANCH between two that share the kernel and differ in one tone list only (constant
+    # propagation joins the two branch values: they must not be taken for one constant)
+    "branch-selected-device-function": ("(zone: grid.Grid[Literal[3], Literal[2]], c: bool)", """
+    if c:
+        f = schedule.device_fn(k0, [0, 1], [0])
+    else:
+        f = schedule.device_fn(k0, [0, 1], [1])
+    f(1.0, 2.0)
+    gate.global_rz(0.5)
+    if c:
+        g = schedule.device_fn(k0, [1, 0], [0])
+    else:
+        g = schedule.device_fn(k0, [0, 1], [0])
+    g(1.0, 2.0)
+    schedule.reverse(f)(1.0, 2.0)
+    if c:
+        h = schedule.device_fn(k0, [0, 1], [0])
+    else:
+        h = schedule.device_fn(k1, [0, 1], [0])
+    gate.global_rz(0.25)
+    schedule.reverse(g)(2.0, 1.0)
+"""),
     # a filled register over a NON-SQUARE zone tiled in both directions, flowing into a fill and gates
     "tiled-filled-register": ("(zone: grid.Grid[Literal[3], Literal[2]], c: bool)", """
     z = spec.get_static_trap(zone_id="traps")
